@@ -25,6 +25,20 @@ func init() {
 	})
 }
 
+func init() {
+	// a data race between two accesses made by the outbox machinery itself (processOutbox and the send goroutines
+	// it starts) means writes to one client are not serialised: that is the mechanism C14 rests on
+	core.RaceClassifier["C14"] = func(b core.Batch, r core.RaceReport) (bool, string) {
+		n := 0
+		for _, f := range r.Funcs {
+			if strings.Contains(f, "processOutbox") || strings.Contains(f, "sendTransaction") {
+				n++
+			}
+		}
+		return n >= 2, "C14/data-race-in-outbox"
+	}
+}
+
 var answered = map[int]bool{101: true, 200: true, 300: true, 370: true, 371: true, 500: true, 206: true, 103: true, 355: true}
 
 func runCase(c *core.Case) {
